@@ -13,6 +13,7 @@ import (
 	"github.com/cosmos/cosmos-sdk/codec"
 	sdk "github.com/cosmos/cosmos-sdk/types"
 	banktypes "github.com/cosmos/cosmos-sdk/x/bank/types"
+	gogotypes "github.com/cosmos/gogoproto/types"
 
 	oracletypes "mods.irisnet.org/modules/oracle/types"
 	servicetypes "mods.irisnet.org/modules/service/types"
@@ -179,7 +180,7 @@ func (w *oracleWorkload) Next(block int) []rig.Tx {
 		// feeds
 		nf := 4
 		if w.quiet {
-			nf = 2
+			nf = 3
 		}
 		for i := 0; i < nf; i++ {
 			creator := r.Acc(3 + i%3)
@@ -200,13 +201,22 @@ func (w *oracleWorkload) Next(block int) []rig.Tx {
 			if w.quiet && i == 0 {
 				name = "tka-stake" // the exchange-rate feed other modules read (service pricing in tka)
 			}
-			if name == "tka-stake" {
+			if w.quiet && i == 2 {
+				// an average over three providers answering with values around 1e15..1e16 (above 2^53 in sum): the float64
+				// sum, and with it the stored 8-decimal value, depends on the order in which the outputs are added up
+				name, np = "feedavg", 3
+				provs = []string{w.provs[0].Addr.String(), w.provs[1].Addr.String(), w.provs[2].Addr.String()}
+			}
+			if name == "tka-stake" || name == "feedavg" {
 				freq, timeout = 3, 2
 			}
 			msg := &oracletypes.MsgCreateFeed{FeedName: name, LatestHistory: uint64(1 + rng.Intn(5)), Description: "d", Creator: creator.Addr.String(), ServiceName: orSvc, Providers: provs,
 				Input: `{"header":{},"body":{}}`, Timeout: timeout, ServiceFeeCap: sdk.NewCoins(sdk.NewInt64Coin(rig.BondDenom, 10)), RepeatedFrequency: freq, AggregateFunc: pick(rng, "max", "min", "avg"), ValueJsonPath: "last", ResponseThreshold: uint32(1 + rng.Intn(np))}
 			if name == "tka-stake" {
 				msg.ResponseThreshold = 1
+			}
+			if name == "feedavg" {
+				msg.ResponseThreshold, msg.AggregateFunc = 1, "avg"
 			}
 			out = append(out, r.Mk(creator, &orTag{Kind: "create", Feed: name}, msg))
 		}
@@ -223,6 +233,11 @@ func (w *oracleWorkload) Next(block int) []rig.Tx {
 				continue
 			}
 			roll := rng.Intn(10)
+			if w.reqFeed[id] == "feedavg" {
+				lit := fmt.Sprintf("%d.%04d", int64(1e15)+rng.Int63n(int64(8e15)), rng.Intn(10000))
+				out = append(out, r.Mk(p, &orTag{Kind: "respond", Req: id, Feed: "feedavg", Val: lit, Role: "1e15"}, svcRespond(p, id, `{"last":`+lit+`}`)))
+				continue
+			}
 			if w.reqFeed[id] == "tka-stake" && roll < 3 {
 				roll = 9 // the exchange-rate feed other workloads price with is kept alive by construction
 			}
@@ -273,7 +288,7 @@ func (w *oracleWorkload) Next(block int) []rig.Tx {
 			}
 		}
 		op := rng.Intn(6)
-		if name == "tka-stake" && op == 3 {
+		if (name == "tka-stake" || name == "feedavg") && op == 3 {
 			op = 0 // never paused: see above
 		}
 		switch op {
@@ -284,7 +299,7 @@ func (w *oracleWorkload) Next(block int) []rig.Tx {
 		default:
 			msg := &oracletypes.MsgEditFeed{FeedName: name, Description: pick(rng, oracletypes.DoNotModify, "new"), LatestHistory: uint64(rng.Intn(7)), Creator: actor.Addr.String()}
 			switch {
-			case name == "tka-stake":
+			case name == "tka-stake" || name == "feedavg":
 				if rng.Intn(3) == 0 {
 					msg.ResponseThreshold = 1
 				}
@@ -613,6 +628,11 @@ func runOracle(run *ev.Run, c int) {
 			return
 		}
 		w.Observe(br)
+		run.Eval(1)
+		for _, l := range oracleIndexCheck(r, r.Ctx()) {
+			slug := l[:strings.Index(l, ": ")]
+			run.Violation("C17:oracle:index:"+slug, map[string]any{"height": br.Height, "line": l}, "after block %d: %s", br.Height, l)
+		}
 	}
 	run.Require("value-appended", 20)
 	run.Require("batch-below-threshold", 1)
@@ -620,4 +640,58 @@ func runOracle(run *ev.Run, c int) {
 	run.Require("history-grow", 1)
 	run.Require("hostile-start-rejected", 1)
 	run.Require("hostile-edit-rejected", 1)
+}
+
+// oracleIndexCheck walks the oracle module's secondary indexes against its feeds on the state visible in ctx: every
+// feed must be reachable from its request context id (the index the service callbacks use to find the feed a response
+// or a state change belongs to) and be listed under exactly one state; every index entry must lead to such a feed.
+// One string per inconsistency, starting with a stable relation tag followed by ": ".
+func oracleIndexCheck(r *rig.Rig, ctx sdk.Context) []string {
+	var out []string
+	add := func(tag, f string, a ...any) { out = append(out, tag+": "+fmt.Sprintf(f, a...)) }
+	feeds := map[string]oracletypes.Feed{}
+	r.K.Oracle.IteratorFeeds(ctx, func(f oracletypes.Feed) { feeds[f.FeedName] = f })
+	byCtx := map[string]string{}
+	r.WalkStore(ctx, oracletypes.StoreKey, oracletypes.PrefixReqCtxIdKey, func(k, v []byte) bool {
+		var sv gogotypes.StringValue
+		if err := r.Cdc.Unmarshal(v, &sv); err != nil || len(k) < 2 {
+			add("request-context-index-entry-undecodable", "key %x", k)
+			return false
+		}
+		byCtx[strings.ToUpper(hex.EncodeToString(k[2:]))] = sv.Value
+		return false
+	})
+	listed := map[string]int{}
+	for _, pfx := range [][]byte{oracletypes.PrefixFeedRunningStateKey, oracletypes.PrefixFeedPauseStateKey} {
+		r.WalkStore(ctx, oracletypes.StoreKey, pfx, func(k, _ []byte) bool {
+			if len(k) >= 2 {
+				listed[string(k[2:])]++
+			}
+			return false
+		})
+	}
+	for _, name := range sortedKeys(feeds) {
+		f := feeds[name]
+		id := strings.ToUpper(f.RequestContextID)
+		switch got, ok := byCtx[id]; {
+		case !ok:
+			add("feed-not-indexed-by-its-request-context", "feed %s (request context %s) cannot be found from its request context id", name, id)
+		case got != name:
+			add("request-context-index-names-another-feed", "request context %s of feed %s is indexed as feed %q", id, name, got)
+		}
+		if listed[name] != 1 {
+			add("feed-state-listing-count", "feed %s is listed %d times in the running/paused state indexes", name, listed[name])
+		}
+	}
+	for _, id := range sortedKeys(byCtx) {
+		if f, ok := feeds[byCtx[id]]; !ok || strings.ToUpper(f.RequestContextID) != id {
+			add("request-context-index-entry-stray", "index entry %s -> %q matches no feed", id, byCtx[id])
+		}
+	}
+	for _, name := range sortedKeys(listed) {
+		if _, ok := feeds[name]; !ok {
+			add("feed-state-listing-stray", "state index lists %q, which is no feed", name)
+		}
+	}
+	return out
 }
